@@ -25,22 +25,26 @@ PROPS = {
                     "unit kinds: 64-bit target (usize = 8 bytes); MaybeUninit<T> modelled as an optional value whose assume_init* REQUIRE initialisation; SyncUnsafeCell/UnsafeCell modelled as a plain cell (get() = shared reference), so shared_get_mut / SliceAccess (raw pointer casts) are not covered; Vec::set_len leaves new elements arbitrary, its capacity precondition and allocation failure are not modelled; AHashMap/BTreeMap are assumed finite maps",
                     "BOUNDED part (Kani, thorough tier only — the smallest VecStorage harness needs 11 minutes, mostly CBMC symbolic execution of Vec growth; reported under coverage.bounded): VecStorage / DefaultVecStorage against the raw-operation contract from every well-formed state within the stated small bounds, u16 components; the thorough tier also re-checks DenseVecStorage on the real unsafe code (cross-check of the stubs used by the proof); NullStorage only in the C08 harness"],
                 kani=dict(files=['storages_harness.rs'], quick=[], thorough=['vec_step_small', 'vec_step', 'default_vec_step_small', 'default_vec_step', 'dense_step'], timeout=3000)),
-    'C08': dict(units=['storage', 'kinds', 'veckinds'], witness=None, level='other',
+    'C08': dict(units=['storage', 'kinds', 'veckinds', 'changeset'], witness=None, level='other',
                 # deductive support for the harness assumption "clean() gets the true mask": the mask/content invariant and the exact
                 # map effect of every layer function that moves a value in or out (Verus, unit storage)
-                also=[r'^storage::(MaskedStorage|Storage\(&mut\)|OccupiedEntry|VacantEntry|Drain_\w+)::\w+::ens\.(wf|map|ret|raw)$', r'^storage::UnprotectedStorage::drop\(default\)::'],
+                also=[r'^storage::(MaskedStorage|Storage\(&mut\)|OccupiedEntry|VacantEntry|Drain_\w+)::\w+::ens\.(wf|map|ret|raw)$', r'^storage::UnprotectedStorage::drop\(default\)::',
+                      # values added to a change set: clear() destroys all of them and empties the mask, the consuming join hands each one back once
+                      r'^changeset::ChangeSet::(clear|add|new|default)::', r'^changeset::l?j_changeset_\w+::'],
                 explanation="BOUNDED stand-in (Kani/CBMC harnesses on the real unsafe storage code with a destructor ledger) decides this property; Verus has no destructor semantics, so the exactly-once statement itself is never counted as proved. The Verus obligations listed here only discharge the harnesses' assumption that the layer keeps mask and content in step (so clean()/drop see the true mask and every moved-out value leaves the map). Each harness explores, symbolically and exhaustively within its bound, every choice of indices/operation; CBMC's pointer-safety checks (use after free, double free, out-of-bounds, invalid dereference) are enabled on the real code. Bounds are listed per harness under coverage.bounded.",
                 assumptions=["bounds: <= 2-3 stored components over indices < 3, ONE arbitrary operation after a symbolic insertion prefix, then clean(true mask) and drop; u8-tagged tokens (VecStorage, DenseVecStorage), a zero-sized counting type (NullStorage)",
                              "the mask handed to clean() is the true mask: that MaskedStorage keeps it true is the Verus-proved layer invariant (C04)",
                              "outside: DefaultVecStorage/BTree/HashMap kinds in the ledger harness, the lazy queue (SegQueue), world teardown order, ChangeSet, panicking destructors (C19 n/a)"],
                 kani=dict(files=['ownership_harness.rs', 'storages_harness.rs'], quick=['own_vec', 'own_dense', 'own_null', 'dense_clean'], thorough=['own_drain'], timeout=3000)),
-    'C12': dict(units=['flagged', 'flagged_ec', 'storage'], witness='storage',
+    'C12': dict(units=['flagged', 'flagged_ec', 'join'], witness='storage',
                 assumptions=STORAGE_ASSUME + ["shrev::EventChannel::single_write appends one event and a reader registered earlier receives appended events in order (assumed contract on shrev)",
                                               "FlaggedStorage::shared_get_mut (raw pointer into the channel, used only by parallel joins) is excluded",
                                               "bulk clear() emits nothing by design (stated in the property)",
                                               "both cfg variants of the storage-event-control feature are extracted and verified (units flagged / flagged_ec)"]),
     'C13': dict(units=['join'], witness='storage', assumptions=[HEADROOM] + STORAGE_ASSUME + ["parallel / SharedGetOnly variants are not covered (N3)"]),
     'C06': dict(units=['join'], witness='storage',
+                # the items of a restricted join are the paired accessors: "a mutation made through an item is visible afterwards on that entity and on no other"
+                also=[r'^join::PairedStorage\w+::'],
                 assumptions=[HEADROOM] + STORAGE_ASSUME + [
                     "REDUCED: hibitset's bit-set family (BitSetLike::iter ascending and duplicate-free, BitSetAnd/Not/All/Or views, layered skip logic) is an assumed contract: the 'indices straddling layer boundaries' part of the quantifier lives entirely in that dependency",
                     "macro-generated impls (define_open!, bitset_and!, define_bit_join!) are taken from rustc's own expansion on every run: Join/LendJoin tuples of arity 1-4, BitAnd of arity 2-4, bit-set members BitSet/&BitSet/BitSetNot/BitSetAnd/BitSetOr are under contract; higher arities (the macro is uniform), ParJoin impls and the remaining bit-set members are not; tuple_utils::Split is a trusted stub",
